@@ -16,7 +16,7 @@ var _ containers.JSONDeserializer = (*Queue[int])(nil)
 
 // ToJSON outputs the JSON representation of queue's elements.
 func (queue *Queue[T]) ToJSON() ([]byte, error) {
-	return json.Marshal(queue.values[:queue.maxSize])
+	return json.Marshal(queue.Values())
 }
 
 // FromJSON populates list's elements from the input JSON representation.
@@ -24,6 +24,7 @@ func (queue *Queue[T]) FromJSON(data []byte) error {
 	var values []T
 	err := json.Unmarshal(data, &values)
 	if err == nil {
+		queue.Clear()
 		for _, value := range values {
 			queue.Enqueue(value)
 		}
